@@ -171,10 +171,8 @@ def handle : Handler := fun op inp impl => do
   | "ref" =>
     let o := getWorkloadForRef c s ns ref
     let io ← outOfJson impl
-    let guardRS := replicaSetRef c s ns ref
     let adm := admissible c && strategyOK s
     let F := facts c s ns ref
-    -- full strength; inside the guard `replicaSetRef` (tag below) a failure is the known finding
     let holds := [("C10.finder_no_panic", !adm || noPanic io),
                   ("C10.rollback_detected", rollbackDetected c s ns ref io),
                   ("C10.no_false_rollback", noFalseRollback c s ns ref io),
@@ -202,7 +200,6 @@ def handle : Handler := fun op inp impl => do
                  | none => ["facts:none"]) ++
                 (if producer == "producer:cloneSet" then
                    (c.cloneSets.filter (fun x => x.m.ns == ns && x.m.name == ref.name)).map (fun x => s!"dashes:{min (dashes x.updateRevision) 3}") else []) ++
-                (if adm && guardRS then ["guard:replicaSetRef"] else []) ++
                 (if o == .nothing && (match getRollingStyle s with | some st => (owners st c.filter (groupOf ref) ref.kind).isEmpty | none => false) then ["trivial"] else [])
     return { model := outToJson o, holds := holds, tags := tags }
   | "one" =>
@@ -213,8 +210,7 @@ def handle : Handler := fun op inp impl => do
     let dashTags := if f == .cloneSet then cs.map (fun x => s!"dashes:{min (dashes x.updateRevision) 3}") else []
     return { model := outToJson o,
              holds := [("C10.finder_no_panic", !(admissible c) || noPanic io)],
-             tags := ["op:one", s!"finder:{finderName f}", outTag o] ++ dashTags ++
-                     (if admissible c && f == .stsLike && replicaSetRef c ⟨false, some false⟩ ns ref then ["guard:replicaSetRef"] else []) }
+             tags := ["op:one", s!"finder:{finderName f}", outTag o] ++ dashTags }
   | "vgk" =>
     let kind ← fStr inp "kind"
     let groups ← listOf jstr inp "groups"
